@@ -150,7 +150,7 @@ def run(rep, tier, seed):
                                                   "_trampoline", "_basilisp_fn"], "executed on CrossHair proxies")
     rep.encoded("src/basilisp/lang/compiler/generator.py", ["__multi_arity_dispatch_fn", "__single_arity_fn_to_py_ast", "__multi_arity_fn_to_py_ast"],
                 "their output (compiled fn objects) is executed")
-    to = 45 if quick else 300
+    to = 45 if quick else 180
     sigs = SIGNATURES[:8] if quick else SIGNATURES
     specs = []
     from .. import env as _env
